@@ -166,10 +166,13 @@ pub const NT: usize = 3;
 // ops
 
 #[derive(Clone, Debug, PartialEq)]
+/// `Clear(shape)`: well-formed cleartext of several sizes and kinds — RTP: 0 = 12-byte header + 16-byte payload, 1 = header only
+/// (12 bytes), 2 = 18 bytes (shorter than header + auth tag), 3 = with a header extension, 4 = with padding, 5 = with a CSRC;
+/// RTCP: 0 = RR, 1 = BYE, 2 = SR, 3 = PLI, 4 = NACK, 5 = compound RR + BYE.
 /// `Prot(key, ok, forgery)`: forgery shape when !ok — 0 last tag byte flipped, 1 tag truncated by 4 bytes,
 /// 2 (RTCP) E bit cleared, 3 another tag bit flipped.  (A REPLAY of an accepted datagram is authentic, hence not
 /// in this set: whether a session accepts it is C05's subject — today rustrtc has no replay window at all.)
-pub enum Wire { Clear, Garbage, Prot(u32, bool, u8) }
+pub enum Wire { Clear(u8), Garbage, Prot(u32, bool, u8) }
 
 #[derive(Clone, Debug, PartialEq)]
 pub enum Op {
@@ -264,12 +267,39 @@ fn local_rtp(t: usize, seq: u16, n: u32) -> RtpPacket {
     payload.extend_from_slice(&[0xaa; 8]);
     RtpPacket::new(RtpHeader::new(AUDIO_PT, seq, 0x4000_0000 + 160 * seq as u32, 0x1000 + t as u32), payload)
 }
-fn plain_rtcp(t: usize, n: u32) -> Vec<RtcpPacket> {
-    vec![RtcpPacket::ReceiverReport(ReceiverReport {
-        sender_ssrc: 0x2000 + t as u32,
-        report_blocks: vec![ReportBlock { ssrc: 0x1000 + t as u32, fraction_lost: 0, packets_lost: 0,
+/// cleartext RTP of several shapes (see `Wire::Clear`); every shape passes `RtpPacket::parse`
+fn shaped_rtp(t: usize, seq: u16, n: u32, video: bool, shape: u8) -> (RtpPacket, Vec<u8>) {
+    let (mut pkt, payload) = plain_rtp(t, seq, n, video);
+    let cut = |pkt: &mut RtpPacket, k: usize| { pkt.payload = Bytes::from(payload[..k].to_vec()); };
+    match shape {
+        1 => cut(&mut pkt, 0),
+        2 => cut(&mut pkt, 6),
+        3 => { cut(&mut pkt, 2); pkt.header.extension = Some(rustrtc::rtp::RtpHeaderExtension::new(0xBEDE, vec![0x51, b'x', b'y', 0])); }
+        4 => { cut(&mut pkt, 4); pkt.padding_len = 4; }
+        5 => { cut(&mut pkt, 3); pkt.header.csrcs = vec![0xdead_beef]; }
+        _ => {}
+    }
+    let pl = pkt.payload.to_vec();
+    (pkt, pl)
+}
+fn plain_rtcp(t: usize, n: u32) -> Vec<RtcpPacket> { shaped_rtcp(t, n, 0) }
+/// RTCP of several packet types (see `Wire::Clear`)
+fn shaped_rtcp(t: usize, n: u32, shape: u8) -> Vec<RtcpPacket> {
+    let (me, you) = (0x2000 + t as u32, 0x1000 + t as u32);
+    let rr = RtcpPacket::ReceiverReport(ReceiverReport {
+        sender_ssrc: me,
+        report_blocks: vec![ReportBlock { ssrc: you, fraction_lost: 0, packets_lost: 0,
             highest_sequence: n, jitter: 7, last_sender_report: 0, delay_since_last_sender_report: 0 }],
-    })]
+    });
+    let bye = RtcpPacket::Goodbye(Goodbye { sources: vec![me], reason: Some(format!("bye {n}")) });
+    match shape {
+        1 => vec![bye],
+        2 => vec![RtcpPacket::SenderReport(rustrtc::rtp::SenderReport { sender_ssrc: me, ntp_most: 1, ntp_least: n, rtp_timestamp: 160 * n, packet_count: n, octet_count: 100 * n, report_blocks: vec![] })],
+        3 => vec![RtcpPacket::PictureLossIndication(rustrtc::rtp::PictureLossIndication { sender_ssrc: me, media_ssrc: you })],
+        4 => vec![RtcpPacket::GenericNack(rustrtc::rtp::GenericNack { sender_ssrc: me, media_ssrc: you, lost_packets: vec![n as u16, (n as u16).wrapping_add(3)] })],
+        5 => vec![rr, bye],
+        _ => vec![rr],
+    }
 }
 
 /// classify a captured datagram: media kind and how it was produced (authenticates under which key set)
@@ -298,7 +328,7 @@ fn forge(good: &[u8], shape: u8, rtcp: bool, last: Option<&(u32, Vec<u8>, u32)>,
     match shape {
         1 => { b.truncate(l - 4); (b, 't') }                                   // tag truncated
         2 if rtcp => { b[l - 14] &= 0x7f; (b, 'e') }                            // SRTCP E bit cleared, tag untouched
-        3 => { let _ = (last, k, generation); b[l - 5] ^= 0x80; (b, 'b') }        // a bit flipped inside the tag / index
+        3 => { let _ = (last, k, generation); b[l - 5] ^= 0x80; (b, 'y') }        // a bit flipped in the middle of the tag
         _ => { b[l - 1] ^= 0x01; (b, 'b') }                                     // last tag byte flipped
     }
 }
@@ -372,10 +402,12 @@ pub async fn exec(net: &Net, cfg: &Cfg, ops: &[Op]) -> (Outcome, Vec<String>) {
             Op::ClearBridge(t) => { sys.tr[*t].clear_bridge_rewrite(); text = format!("bc,{t}"); }
             Op::RecvRtp(t, w, video) => {
                 sys.seq = sys.seq.wrapping_add(1); sys.n += 1;
-                let (pkt, payload) = plain_rtp(*t, sys.seq, sys.n, *video);
+                // protected datagrams carry the various shapes too (chosen by the packet counter)
+                let shape = match w { Wire::Clear(sh) => *sh, _ => (sys.n % 6) as u8 };
+                let (pkt, payload) = shaped_rtp(*t, sys.seq, sys.n, *video, shape);
                 let plain = pkt.marshal().unwrap();
                 let (bytes, wt) = match w {
-                    Wire::Clear => (plain, "c".to_string()),
+                    Wire::Clear(sh) => (plain, if *sh == 0 { "c".to_string() } else { format!("c{sh}") }),
                     Wire::Garbage => (vec![0x80, AUDIO_PT, 0], "g".to_string()),
                     Wire::Prot(k, ok, shape) => {
                         let ctx = sys.enc.entry(*k).or_insert_with(|| ref_ctx(*k, 1));
@@ -394,10 +426,11 @@ pub async fn exec(net: &Net, cfg: &Cfg, ops: &[Op]) -> (Outcome, Vec<String>) {
             }
             Op::RecvRtcp(t, w) => {
                 sys.n += 1;
-                let pk = plain_rtcp(*t, sys.n);
+                let shape = match w { Wire::Clear(sh) => *sh, _ => (sys.n % 6) as u8 };
+                let pk = shaped_rtcp(*t, sys.n, shape);
                 let plain = rustrtc::rtp::marshal_rtcp_packets(&pk).unwrap();
                 let (bytes, wt) = match w {
-                    Wire::Clear => (plain, "c".to_string()),
+                    Wire::Clear(sh) => (plain, if *sh == 0 { "c".to_string() } else { format!("c{sh}") }),
                     Wire::Garbage => (vec![0x40, 201, 0, 0], "g".to_string()),
                     Wire::Prot(k, ok, shape) => {
                         let ctx = sys.enc.entry(*k).or_insert_with(|| ref_ctx(*k, 1));
@@ -428,8 +461,8 @@ pub async fn exec(net: &Net, cfg: &Cfg, ops: &[Op]) -> (Outcome, Vec<String>) {
             if cfg.req[t] {
                 let good = matches!(installed[t], Some(k) if prov == format!("A{k}"));
                 if !good {
-                    let wk = match &inj { Some((_, Wire::Clear, _)) => "clear", Some((_, Wire::Garbage, _)) => "garbage",
-                        Some((_, Wire::Prot(_, true, _), _)) => "protected-other-or-no-keys", Some((_, Wire::Prot(_, false, sh), _)) => ["forged-tag", "forged-truncated", "forged-e-bit", "forged-replay"][(*sh).min(3) as usize], None => "none" };
+                    let wk = match &inj { Some((_, Wire::Clear(_), _)) => "clear", Some((_, Wire::Garbage, _)) => "garbage",
+                        Some((_, Wire::Prot(_, true, _), _)) => "protected-other-or-no-keys", Some((_, Wire::Prot(_, false, sh), _)) => ["forged-tag", "forged-truncated", "forged-e-bit", "forged-tag-bit"][(*sh).min(3) as usize], None => "none" };
                     fails.push((format!("in:unauthenticated-delivered:{sink}:{wk}"), format!("step {i} transport {t} prov {prov} installed {:?}", installed[t])));
                 }
             }
@@ -508,8 +541,8 @@ pub async fn exec(net: &Net, cfg: &Cfg, ops: &[Op]) -> (Outcome, Vec<String>) {
 // ---------------------------------------------------------------------------------------------
 // generators
 
-/// the 14-symbol alphabet of the exhaustive enumeration (source = transport 0, target = 1)
-pub const NSYM: usize = 14;
+/// the 17-symbol alphabet of the exhaustive enumeration (source = transport 0, target = 1)
+pub const NSYM: usize = 17;
 fn sym(k: usize) -> Op {
     match k {
         0 => Op::Keys(0, 0),
@@ -517,15 +550,18 @@ fn sym(k: usize) -> Op {
         2 => Op::SendRaw(0, true),
         3 => Op::SendRtcp(0),
         4 => Op::SyncBye(0),
-        5 => Op::RecvRtp(0, Wire::Clear, false),
+        5 => Op::RecvRtp(0, Wire::Clear(0), false),
         6 => Op::RecvRtp(0, Wire::Prot(0, true, 0), false),
         7 => Op::RecvRtp(0, Wire::Prot(10, true, 0), false), // genuine SRTP, but under another session's keys
-        8 => Op::RecvRtcp(0, Wire::Clear),
+        8 => Op::RecvRtcp(0, Wire::Clear(0)),
         9 => Op::RecvRtcp(0, Wire::Prot(0, true, 0)),
         10 => Op::Bridge(0, 1, None),
         11 => Op::ClearBridge(0),
         12 => Op::Keys(1, 10),
-        _ => Op::Close(0),
+        13 => Op::Close(0),
+        14 => Op::RecvRtp(0, Wire::Clear(2), false),  // clear RTP shorter than header + auth tag
+        15 => Op::RecvRtcp(0, Wire::Clear(1)),        // clear BYE
+        _ => Op::Keys(0, 5),                           // unusable key material on the source
     }
 }
 
@@ -534,7 +570,7 @@ fn rand_op(rng: &mut Rng) -> Op {
     // mostly usable key material, sometimes (1 in 8) an unusable key set (every protect / unprotect fails)
     let key = |rng: &mut Rng, t: usize| (10 * t as u32) + if rng.chance(1, 8) { 5 } else { rng.below(2) as u32 };
     let wire = |rng: &mut Rng, t: usize| match rng.below(10) {
-        0 | 1 => Wire::Clear,
+        0 | 1 => Wire::Clear(rng.below(6) as u8),
         2 => Wire::Garbage,
         3 => Wire::Prot(*rng.pick(&KEYS), true, 0),
         4 | 5 => Wire::Prot(10 * t as u32 + rng.below(2) as u32, false, rng.below(4) as u8),
@@ -922,22 +958,41 @@ mod tap {
     }
 
     /// one session between two real PeerConnections through the relay
-    pub async fn session(mode: TransportMode, name: &str) -> anyhow::Result<TapResult> {
+    /// `rtx`: negotiate RTX (retransmissions leave as pt 97) or not (plain re-sends of the original packet, pc.rs `else` arm of
+    /// the NACK handler); `long`: stay long enough for the first sender report
+    pub async fn session(mode: TransportMode, name: &str, rtx: bool, long: bool) -> anyhow::Result<TapResult> {
         let relay = Relay::new().await;
         let mk = || {
             let mut c = RtcConfiguration::default();
             c.transport_mode = mode.clone();
             c.bind_ip = Some("127.0.0.1".into());
             let mut caps = rustrtc::config::MediaCapabilities::default();
-            caps.video = vec![rustrtc::config::VideoCapability::vp8_with_rtx(97)];
+            caps.video = vec![if rtx { rustrtc::config::VideoCapability::vp8_with_rtx(97) } else { rustrtc::config::VideoCapability::default() }];
             c.media_capabilities = Some(caps);
             PeerConnection::new(c)
         };
         let (pc1, pc2) = (mk(), mk());
-        let (source, track, _fb) = rustrtc::media::track::sample_track(rustrtc::media::frame::MediaKind::Video, 200);
+        let (source, track, mut fb) = rustrtc::media::track::sample_track(rustrtc::media::frame::MediaKind::Video, 200);
         let source = Arc::new(source);
         let _sender = pc1.add_track(track.clone(), RtpCodecParameters { payload_type: 96, name: "VP8".into(), clock_rate: 90000, channels: 0 })?;
         pc2.add_transceiver(MediaKind::Video, TransceiverDirection::RecvOnly);
+
+        // media from peer 1 — the application starts producing BEFORE any description is exchanged, so anything that
+        // leaked before keys exist would be on the wire; later the relay withholds every 6th RTP packet → NACK → re-sends
+        let src2 = source.clone();
+        let stop = Arc::new(AtomicBool::new(false));
+        let stop2 = stop.clone();
+        let sender_task = tokio::spawn(async move {
+            let mut i = 0u32;
+            while !stop2.load(Ordering::Relaxed) {
+                let mut data = vec![0x10u8, 0, 0, 0];
+                data.extend_from_slice(MARKER); data.extend_from_slice(&i.to_be_bytes()); data.extend_from_slice(MARKER);
+                let frame = VideoFrame { rtp_timestamp: i.wrapping_mul(3000), data: Bytes::from(data), is_last_packet: true, ..Default::default() };
+                if src2.send(MediaSample::Video(frame)).is_err() { break; }
+                i += 1;
+                tokio::time::sleep(std::time::Duration::from_millis(15)).await;
+            }
+        });
 
         let _ = pc1.create_offer().await?;
         pc1.wait_for_gathering_complete().await;
@@ -960,23 +1015,9 @@ mod tap {
         let watch = Arc::new(Watch { seen_inject: AtomicBool::new(false), seen_marker: AtomicU64::new(0) });
         t2.add_observer(watch.clone());
 
-        // media from peer 1; the relay withholds every 6th RTP packet once the stream runs → NACK → RTX
-        let src2 = source.clone();
-        let stop = Arc::new(AtomicBool::new(false));
-        let stop2 = stop.clone();
-        let sender_task = tokio::spawn(async move {
-            let mut i = 0u32;
-            while !stop2.load(Ordering::Relaxed) {
-                let mut data = vec![0x10u8, 0, 0, 0];
-                data.extend_from_slice(MARKER); data.extend_from_slice(&i.to_be_bytes()); data.extend_from_slice(MARKER);
-                let frame = VideoFrame { rtp_timestamp: i.wrapping_mul(3000), data: Bytes::from(data), is_last_packet: true, ..Default::default() };
-                if src2.send(MediaSample::Video(frame)).is_err() { break; }
-                i += 1;
-                tokio::time::sleep(std::time::Duration::from_millis(15)).await;
-            }
-        });
         let receiver = pc2.get_transceivers()[0].receiver().ok_or_else(|| anyhow::anyhow!("no receiver"))?;
         let remote_track = receiver.track();
+        let remote_track2 = remote_track.clone();
         let delivered_inject = Arc::new(AtomicBool::new(false));
         let di = delivered_inject.clone();
         let reader = tokio::spawn(async move {
@@ -988,8 +1029,24 @@ mod tap {
         tokio::time::sleep(std::time::Duration::from_millis(400)).await;
         relay.lossy.store(true, Ordering::Relaxed);
         tokio::time::sleep(std::time::Duration::from_millis(600)).await;
-        // feedback from the receiving side
+        // feedback from the receiving side through each of its three entry points: receiver API, explicit NACK,
+        // and a key-frame request raised on the remote TRACK (feedback event → receiver loop)
         let _ = receiver.request_key_frame().await;
+        let _ = receiver.send_nack(vec![1, 2, 3]).await;
+        { use rustrtc::media::MediaStreamTrack; let _ = remote_track2.request_key_frame().await; }
+        // a raw packet from the application (DTMF path, `PeerConnection::send_raw_rtp`)
+        {
+            let mut payload = MARKER.to_vec(); payload.extend_from_slice(b"-RAW");
+            let _ = pc1.send_raw_rtp(RtpPacket::new(RtpHeader::new(101, 7, 160, 0x0D7F_0001), payload)).await;
+        }
+        tokio::time::sleep(std::time::Duration::from_millis(150)).await;
+        // from here on peer 2's RTCP goes to the harness instead of the PeerConnection's RTCP loop: whatever the transport
+        // hands to the RTCP listener is looked at
+        let (rl_tx, mut rl_rx) = mpsc::channel::<Vec<RtcpPacket>>(256);
+        t2.register_rtcp_listener(rl_tx);
+        // the same on the SENDING side (its NACK handling stops here; retransmissions have been seen by now)
+        let (rl1_tx, mut rl1_rx) = mpsc::channel::<Vec<RtcpPacket>>(1024);
+        t1.register_rtcp_listener(rl1_tx);
         // cleartext injected towards peer 2 from the address peer 2 trusts (the relay's b socket): RTP with the
         // live stream's SSRC and payload type, and an RTCP BYE for it
         let media_ssrc = relay.log.lock().iter().rev().find(|(d, b)| *d == 1 && b.len() > 12 && (128..192).contains(&b[0]) && !rustrtc::rtp::is_rtcp(b))
@@ -1000,11 +1057,48 @@ mod tap {
                 let mut h = RtpHeader::new(96, 40000 + k, 123456, media_ssrc); h.marker = true;
                 let _ = relay.b.send_to(&RtpPacket::new(h, payload).marshal().unwrap(), to).await;
             }
-            let bye = rustrtc::rtp::marshal_rtcp_packets(&[RtcpPacket::Goodbye(Goodbye { sources: vec![media_ssrc], reason: Some("injected".into()) })]).unwrap();
-            let _ = relay.b.send_to(&bye, to).await;
+            // clear RTCP of several packet types towards peer 2, each marked with SSRC / reason the harness recognises
+            for pk in [vec![RtcpPacket::Goodbye(Goodbye { sources: vec![media_ssrc], reason: Some("injected".into()) })],
+                       vec![RtcpPacket::ReceiverReport(ReceiverReport { sender_ssrc: 0x0BAD_0001, report_blocks: vec![] })],
+                       vec![RtcpPacket::SenderReport(rustrtc::rtp::SenderReport { sender_ssrc: 0x0BAD_0002, ntp_most: 1, ntp_least: 2, rtp_timestamp: 3, packet_count: 4, octet_count: 5, report_blocks: vec![] })]] {
+                let _ = relay.b.send_to(&rustrtc::rtp::marshal_rtcp_packets(&pk).unwrap(), to).await;
+            }
+        }
+        // … and clear feedback (PLI, NACK) towards peer 1 (the sender) from the address IT trusts
+        if let Some(to) = *relay.pc1.lock() {
+            let pli = rustrtc::rtp::marshal_rtcp_packets(&[RtcpPacket::PictureLossIndication(rustrtc::rtp::PictureLossIndication { sender_ssrc: 0x0BAD_0003, media_ssrc })]).unwrap();
+            let nack = rustrtc::rtp::marshal_rtcp_packets(&[RtcpPacket::GenericNack(rustrtc::rtp::GenericNack { sender_ssrc: 0x0BAD_0004, media_ssrc, lost_packets: vec![1, 2] })]).unwrap();
+            for _ in 0..2 { let _ = relay.a.send_to(&pli, to).await; let _ = relay.a.send_to(&nack, to).await; }
         }
         // long enough for the first sender report (3 s after the stream started)
-        tokio::time::sleep(std::time::Duration::from_millis(2400)).await;
+        tokio::time::sleep(std::time::Duration::from_millis(if long { 2400 } else { 500 })).await;
+        let mut rtcp_to_listener = 0u64;
+        let mut injected_rtcp_seen: Vec<&'static str> = vec![];
+        while let Ok(pks) = rl_rx.try_recv() {
+            for pk in pks {
+                rtcp_to_listener += 1;
+                match pk {
+                    RtcpPacket::Goodbye(g) if g.reason.as_deref() == Some("injected") => injected_rtcp_seen.push("bye"),
+                    RtcpPacket::ReceiverReport(r) if r.sender_ssrc == 0x0BAD_0001 => injected_rtcp_seen.push("rr"),
+                    RtcpPacket::SenderReport(r) if r.sender_ssrc == 0x0BAD_0002 => injected_rtcp_seen.push("sr"),
+                    _ => {}
+                }
+            }
+        }
+        // what peer 1's transport handed to ITS RTCP listener after the swap: authentic NACKs keep coming (the positive
+        // control that the observation point works), the injected clear PLI / NACK must not be among them
+        let mut rtcp_to_sender_listener = 0u64;
+        while let Ok(pks) = rl1_rx.try_recv() {
+            for pk in pks {
+                rtcp_to_sender_listener += 1;
+                match pk {
+                    RtcpPacket::PictureLossIndication(x) if x.sender_ssrc == 0x0BAD_0003 => injected_rtcp_seen.push("pli-at-sender"),
+                    RtcpPacket::GenericNack(x) if x.sender_ssrc == 0x0BAD_0004 => injected_rtcp_seen.push("nack-at-sender"),
+                    _ => {}
+                }
+            }
+        }
+        let _ = &mut fb;
         let marker_seen_by_peer2 = watch.seen_marker.load(Ordering::Relaxed);
         stop.store(true, Ordering::Relaxed);
         let _ = sender_task.await;
@@ -1055,6 +1149,17 @@ mod tap {
                 Some(a) => if let Err(why) = a.check(b) { fails.push((format!("wire:not-protected-under-negotiated-keys:{name}:{kind}"), format!("direction {dir}: {why}, {} bytes, first bytes {}", b.len(), crate::hex(&b[..b.len().min(16)])))); },
             }
         }
+        for k in &injected_rtcp_seen { fails.push((format!("wire:injected-clear-rtcp-reached-rtcp-listener:{name}:{k}"), "the transport handed an injected clear RTCP packet to the RTCP listener".into())); }
+        // re-sends of the original packet (no RTX): the same (SSRC, sequence number) seen again in the media direction
+        {
+            let mut seen: HashSet<(u32, u16)> = HashSet::new();
+            let mut dup = 0u64;
+            for (dir, b) in &log { if *dir == 1 && b.len() >= 12 && (128..192).contains(&b[0]) && !rustrtc::rtp::is_rtcp(b) && (b[1] & 0x7f) == 96 {
+                if !seen.insert((u32::from_be_bytes([b[8], b[9], b[10], b[11]]), u16::from_be_bytes([b[2], b[3]]))) { dup += 1; } } }
+            kinds.insert("dir1:rtp-pt96-resent".into(), dup);
+        }
+        kinds.insert("peer2_rtcp_packets_to_listener".into(), rtcp_to_listener);
+        kinds.insert("peer1_rtcp_packets_to_listener".into(), rtcp_to_sender_listener);
         if watch.seen_inject.load(Ordering::Relaxed) { fails.push((format!("wire:injected-cleartext-reached-observer:{name}"), "on_ingress saw the injected clear RTP".into())); }
         if delivered_inject.load(Ordering::Relaxed) { fails.push((format!("wire:injected-cleartext-reached-track:{name}"), "the remote track delivered the injected clear RTP".into())); }
         kinds.insert("relay_dropped_rtp".into(), relay.dropped.load(Ordering::Relaxed));
@@ -1066,15 +1171,25 @@ mod tap {
 /// run the tapped sessions; what must have been seen on the wire for the session to count
 async fn wire_tap(run: &mut Run) {
     use rustrtc::TransportMode;
-    for (mode, name) in [(TransportMode::WebRtc, "webrtc"), (TransportMode::Srtp, "srtp")] {
-        // RTX (pt 97), NACK (RTCP 205), PLI (206), SR (200), BYE (203), media (pt 96) in the sender direction
-        let need = ["dir1:rtp-pt96", "dir1:rtp-pt97", "dir2:rtcp-pt205", "dir2:rtcp-pt206", "dir1:rtcp-pt200", "dir1:rtcp-pt203"];
+    // (mode, label, RTX negotiated, long enough for a sender report, traffic kinds that must have been seen on the wire)
+    let sessions: [(TransportMode, &str, bool, bool, &[&str]); 3] = [
+        // media, RTX (pt 97), NACK (205), PLI (206, at least the receiver-API one), SR (200), BYE (203), raw/DTMF packet (pt 101)
+        (TransportMode::WebRtc, "webrtc", true, true, &["dir1:rtp-pt96", "dir1:rtp-pt97", "dir2:rtcp-pt205", "dir2:rtcp-pt206", "dir1:rtcp-pt200", "dir1:rtcp-pt203", "dir1:rtp-pt101"]),
+        (TransportMode::Srtp, "srtp", true, true, &["dir1:rtp-pt96", "dir1:rtp-pt97", "dir2:rtcp-pt205", "dir2:rtcp-pt206", "dir1:rtcp-pt200", "dir1:rtcp-pt203", "dir1:rtp-pt101"]),
+        // RTX NOT negotiated: lost packets are re-sent as they were (same SSRC and sequence number)
+        (TransportMode::WebRtc, "webrtc-nortx", false, false, &["dir1:rtp-pt96", "dir1:rtp-pt96-resent", "dir2:rtcp-pt205", "dir2:rtcp-pt206", "dir1:rtcp-pt203", "dir1:rtp-pt101"]),
+    ];
+    for (mode, name, rtx, long, need) in sessions {
         let mut last_err = String::from("not run");
         let mut done = false;
         for _attempt in 0..3 {
-            match tokio::time::timeout(std::time::Duration::from_secs(40), tap::session(mode.clone(), name)).await {
+            match tokio::time::timeout(std::time::Duration::from_secs(40), tap::session(mode.clone(), name, rtx, long)).await {
                 Ok(Ok(r)) => {
-                    let missing: Vec<&str> = need.iter().copied().filter(|k| r.kinds.get(*k).copied().unwrap_or(0) == 0).collect();
+                    let mut missing: Vec<&str> = need.iter().copied().filter(|k| r.kinds.get(*k).copied().unwrap_or(0) == 0).collect();
+                    // the three feedback entry points each produce a PLI / NACK of their own
+                    if r.kinds.get("dir2:rtcp-pt206").copied().unwrap_or(0) < 2 { missing.push("second PLI (track feedback event)"); }
+                    // positive control of the inbound-RTCP observation point: authentic feedback did reach the swapped listener
+                    if r.kinds.get("peer1_rtcp_packets_to_listener").copied().unwrap_or(0) == 0 { missing.push("authentic RTCP at the sender's RTCP listener"); }
                     for (sig, detail) in &r.fails { run.fail(sig, &format!("wire {name}"), detail); }
                     if !r.fails.is_empty() || missing.is_empty() {
                         for (k, v) in &r.kinds { run.count_n(&format!("wire_{name}_{k}"), *v); }
@@ -1101,7 +1216,8 @@ pub fn run(args: &Args) {
         if let Some(case) = &args.replay {
             if let Some(rest) = case.strip_prefix("wire ") {
                 let mode = match rest.trim() { "srtp" => rustrtc::TransportMode::Srtp, "rtp" => rustrtc::TransportMode::Rtp, _ => rustrtc::TransportMode::WebRtc };
-                match tap::session(mode, rest.trim()).await {
+                let nortx = rest.trim().ends_with("nortx");
+                match tap::session(mode, rest.trim(), !nortx, !nortx).await {
                     Ok(r) => { println!("impl: profile {} kinds {:?}", r.profile, r.kinds); for (s, d) in r.fails.iter().take(20) { println!("ORACLE-FAIL {s} {d}"); } println!("{} oracle failures", r.fails.len()); }
                     Err(e) => println!("session failed: {e}"),
                 }
@@ -1117,7 +1233,7 @@ pub fn run(args: &Args) {
         pc_modes(&mut run).await;
         // (0b) wire tap on real PeerConnections (NACK/RTX, SR, PLI, BYE, negotiated keys, injected cleartext)
         wire_tap(&mut run).await;
-        // (1) exhaustive: all sequences of length L over the 14-symbol alphabet × (source, target) mandatory flags
+        // (1) exhaustive: all sequences of length L over the 17-symbol alphabet × (source, target) mandatory flags
         let len = if args.tier_thorough { 5 } else { 4 };
         let total = NSYM.pow(len as u32);
         for (r0, r1) in [(true, true), (true, false), (false, true), (false, false)] {
@@ -1151,7 +1267,7 @@ pub fn run(args: &Args) {
         run.count_n("late_datagrams", net.late.get());
         run.exhaustive = true;
         run.notes.insert("exhaustive_scope".into(), serde_json::json!(format!(
-            "all {}^{} op sequences over the 14-symbol alphabet for (source,target) mandatory flags in {{0,1}}^2", NSYM, len)));
+            "all {}^{} op sequences over the 17-symbol alphabet for (source,target) mandatory flags in {{0,1}}^2", NSYM, len)));
     });
     run.finish();
 }
@@ -1165,7 +1281,7 @@ pub fn parse_case(s: &str) -> (Cfg, Vec<Op>) {
         cfg.req[t] = b[0]; cfg.obs[t] = b[1]; cfg.lis[t] = b[2]; cfg.rl[t] = b[3];
     }
     let wire = |w: &str| match &w[..1] {
-        "c" => Wire::Clear, "g" => Wire::Garbage,
+        "c" => Wire::Clear(w[1..].parse().unwrap_or(0)), "g" => Wire::Garbage,
         "o" | "O" => Wire::Prot(w[1..].parse().unwrap(), true, 0),
         "t" | "T" => Wire::Prot(w[1..].parse().unwrap(), false, 1),
         "e" | "E" => Wire::Prot(w[1..].parse().unwrap(), false, 2),
